@@ -276,6 +276,7 @@ func childCPUExpired(pid int, budget, wall time.Duration, done <-chan error) <-c
 	ch := make(chan time.Time, 1)
 	go func() {
 		start := time.Now()
+		lastTicks, lastMoved := int64(-1), time.Now()
 		for {
 			time.Sleep(500 * time.Millisecond)
 			b, err := os.ReadFile(fmt.Sprintf("/proc/%d/stat", pid))
@@ -292,6 +293,13 @@ func childCPUExpired(pid int, budget, wall time.Duration, done <-chan error) <-c
 				ut, _ := strconv.ParseInt(f[11], 10, 64)
 				st, _ := strconv.ParseInt(f[12], 10, 64)
 				if time.Duration(ut+st)*10*time.Millisecond > budget {
+					ch <- time.Now()
+					return
+				}
+				// a child that has not used one tick of processor time for 90 s on end is blocked, not slow
+				if ut+st != lastTicks {
+					lastTicks, lastMoved = ut+st, time.Now()
+				} else if time.Since(lastMoved) > 90*time.Second {
 					ch <- time.Now()
 					return
 				}
